@@ -658,14 +658,14 @@ class C12(common.Check):
             "flags, minor version, call ids) sent to the client. (tear) one message of a full "
             "EPM+GKDI conversation is garbled in flight (towards LibDC or towards the client: truncation with consistent frag_len, bit flips, "
             "NDR count rewrites up to 2^64-1, growth) under a traced-line budget; (threads) 2..4 caller threads of one process run codec "
-            "computations at the same time, pre-empted at PRNG-chosen line events inside dpapi_ng, and every result must equal the one computed alone; (eptreq) ept_map requests with 0..5 floors, null / non-null object UUID and lookup handle encoded, decoded and re-encoded by the library; (scale) structured hostile ept_map results (many towers with tiny declared lengths and "
+            "computations at the same time, pre-empted at PRNG-chosen line events inside dpapi_ng, and every result must equal the one computed alone (also as the first thing a new interpreter does, one child process per case); (eptreq) ept_map requests with 0..5 floors, null / non-null object UUID and lookup handle encoded, decoded and re-encoded by the library; (scale) structured hostile ept_map results (many towers with tiny declared lengths and "
             "floor counts reaching to the end of the stub) of growing size under a budget of 20000 + 30*len traced lines. Non-trivial = every case; distinct = distinct tuple.")
     components = {"client": "real (all client-direction codecs, RpcClient)", "LibDC": "real codecs in the server role (Bind/AlterContext/Request/"
                   "VerificationTrailer/EptMap/GetKey decode, BindAck/AlterContextResponse/Response/Fault/BindNak/EptMapResult/GroupKeyEnvelope encode)",
                   "reference server / monitor": "model (ref.rpce)", "security context": "stub", "transport": "simulated, with in-flight adversary"}
     assumptions = ["decode(encode(x)) = x is claimed only for messages that cross the wire between the three parties (values no party sends are outside the technique)",
                    "NDR referent ids are free: NDR64 stubs are compared through the independent decoder"]
-    required_fired = ("codec_lib", "codec_ref", "reqtear", "replytear", "tear_vt", "libenc", "libenc_drep_be", "thread_cases", "thread_overlap", "scale_cases", "catalogue_round_trips", "ept_map_request_round_trips", "ept_map_request_0_floors", "ept_map_request_5_floors") + tuple("tower_len_mod8_%d" % i for i in range(8)) + tuple("vt_kind_%d" % i for i in range(9))
+    required_fired = ("codec_lib", "codec_ref", "reqtear", "replytear", "tear_vt", "libenc", "libenc_drep_be", "thread_cases", "thread_overlap", "scale_cases", "catalogue_round_trips", "ept_map_request_round_trips", "ept_map_request_0_floors", "ept_map_request_5_floors", "thread_cases_in_new_process") + tuple("tower_len_mod8_%d" % i for i in range(8)) + tuple("vt_kind_%d" % i for i in range(9))
 
     def cases(self, tier, seed):
         out = []
@@ -697,6 +697,10 @@ class C12(common.Check):
             out.append(["threads", rng.getrandbits(30), 2 + k % 3, pol])
         for k in range(0, 11 * (40 if tier == "quick" else 200)):
             out.append(["cat", k])
+        # thread cases as the very first thing a new interpreter does with the library (one child process per case)
+        for k in range(0, 64 if tier == "quick" else 2000):
+            pol = {"mode": "marks", "q": (0.2, 0.35, 0.5, 0.8)[k % 4], "p": (0.0, 0.02, 0.1)[(k // 4) % 3]} if k % 4 else {"mode": "prob", "p": (0.05, 0.3)[(k // 4) % 2]}
+            out.append(["fresh", ["threads", rng.getrandbits(30), 2 + k % 3, pol]])
         for k in range(0, 144 if tier == "quick" else 3000):
             out.append(["eptreq", k])
         from checks import epmstub
@@ -709,7 +713,15 @@ class C12(common.Check):
             out.append(["tear", "to-libdc" if i % 2 else "to-client", rng.choice(("sync", "async")), rng.choice(("epm", "gkdi", "vt") if i % 2 else ("epm", "gkdi")), rng.getrandbits(30)])
         return out
 
+    def _run_fresh(self, case):
+        v = common.run_case_fresh("C12", case[1])
+        if v:
+            v = {"sig": v["sig"] + "/new-process", "detail": "first use in a new process: " + v["detail"]}
+        return {"viol": v, "digest": "fresh:" + (v["sig"] if v else "ok"), "key": common.key_hash(case), "fired": {}, "probes": {"thread_cases_in_new_process": 1}, "vtime_ns": 0}
+
     def run_case(self, case):
+        if case[0] == "fresh":
+            return self._run_fresh(case)
         try:
             return {"conv": run_conv, "epm": run_epm, "types": run_types, "tear": run_tear, "libenc": run_libenc, "threads": run_threads, "scale": run_scale, "cat": run_cat, "eptreq": run_eptreq}[case[0]](case)
         except wiremon.MonitorHarnessError as e:
@@ -721,7 +733,7 @@ class C12(common.Check):
             k = (c[0], c[1], c[2]) if c[0] in ("tear", "conv", "epm") else (c[0],)
             if c[0] == "tear":
                 k = k + (c[3],)
-            if k not in seen and c[0] not in ("threads", "scale", "cat", "eptreq"):
+            if k not in seen and c[0] not in ("threads", "scale", "cat", "eptreq", "fresh"):
                 seen.add(k)
                 try:
                     self.run_case(c)
@@ -748,7 +760,7 @@ class C12(common.Check):
         names = {"conv": ("kind", "codec", "flavour", "n_contexts", "n_transfer_syntaxes", "sec_addr_len", "token_size", "stub_len", "vt_variant", "reply_len"),
                  "epm": ("kind", "codec", "flavour", "tower_variant", "status"), "types": ("kind", "flavour", "pdu_variant"),
                  "tear": ("kind", "direction", "flavour", "conversation", "seed"), "libenc": ("kind", "flavour", "variant"),
-                 "threads": ("kind", "seed", "n_threads", "policy"), "scale": ("kind", "shape", "k"), "cat": ("kind", "catalogue_index"), "eptreq": ("kind", "k")}[case[0]]
+                 "threads": ("kind", "seed", "n_threads", "policy"), "scale": ("kind", "shape", "k"), "cat": ("kind", "catalogue_index"), "eptreq": ("kind", "k"), "fresh": ("kind", "case")}[case[0]]
         return dict(zip(names, case))
 
 
